@@ -49,7 +49,19 @@ fn multi_history(w: usize, reqs: &[Version], evs: &[MEv], bs: u8) -> Result<Opti
             MEv::Deliver(t) => {
                 if next < reqs.len() {
                     let v = reqs[next];
-                    let r = rtref::responder::std_request(v, &nonce(0x1800 + next as u64, v.nonce_len()));
+                    // IETF requests rotate through VER lists that offer draft-13 first, after an
+                    // unknown number, and after the classic number and an unknown one
+                    let r = if v == Version::Ietf13 {
+                        let d13 = rtref::proto::VER_IETF13.to_vec();
+                        let list = match next % 3 {
+                            0 => d13,
+                            1 => [vec![0x0b, 0, 0, 0x80], d13].concat(),
+                            _ => [vec![0u8; 4], vec![0x0b, 0, 0, 0x80], d13].concat(),
+                        };
+                        rtref::responder::ietf_request(&list, None, &nonce(0x1800 + next as u64, 32), 1024)
+                    } else {
+                        rtref::responder::std_request(v, &nonce(0x1800 + next as u64, v.nonce_len()))
+                    };
                     clients[next].send(srvs[t].addr, &r);
                     delivered.push((t, r, v));
                     next += 1;
@@ -102,7 +114,7 @@ fn multi_history(w: usize, reqs: &[Version], evs: &[MEv], bs: u8) -> Result<Opti
 /// of one process do). Rounds of (request to worker w, step w, statistics hand-off of w); the
 /// reporter drains the queue after round `drain_after` only (a reporter that is late, or slower than
 /// a short status interval). No hand-off may fail or block, every request is answered.
-fn shared_queue_history(w: usize, workers_per_round: &[usize], drain_after: Option<usize>) -> Result<Option<(String, String)>, String> {
+pub fn shared_queue_history(w: usize, workers_per_round: &[usize], drain_after: Option<usize>) -> Result<Option<(String, String)>, String> {
     use roughenough::stats::StatsQueue;
     let cfg = SrvCfg { batch_size: 2, client_stats: true, ..Default::default() };
     let lt_pk = crypto::public_key(&cfg.seed);
